@@ -288,6 +288,12 @@ class View:
         return out
 
 
+# exception kinds that are never a documented rejection: a legal operation
+# that ends with one of them died inside the library
+INTERNAL_ERRORS = ('TypeError', 'AttributeError', 'KeyError', 'IndexError',
+                   'NameError', 'UnboundLocalError', 'ZeroDivisionError')
+
+
 def kinds_of(view):
     return [view.esi[c]['kind'] for c in view.chain]
 
